@@ -6,6 +6,7 @@ import (
 	"fmt"
 	"os"
 	"path/filepath"
+	"runtime/debug"
 	"sort"
 	"strings"
 	"time"
@@ -36,8 +37,8 @@ type Op struct {
 	S   int    `json:"s"`             // store index
 	Key int    `json:"key,omitempty"` //
 	Val string `json:"val,omitempty"`
-	N   int    `json:"n,omitempty"` // scan length (0 = all)
-	Hi  int    `json:"hi,omitempty"` // range upper bound (range/rrange: keys in [Key,Hi])
+	N   int    `json:"n,omitempty"`   // scan length (0 = all)
+	Hi  int    `json:"hi,omitempty"`  // range upper bound (range/rrange: keys in [Key,Hi])
 	Pad int    `json:"pad,omitempty"` // value padded to this many bytes
 }
 
@@ -45,7 +46,7 @@ type Op struct {
 type Txn struct {
 	Name     string `json:"name"`
 	Node     int    `json:"node,omitempty"`
-	Mode     string `json:"mode"` // w, r, n
+	Mode     string `json:"mode"`               // w, r, n
 	MaxTime  int    `json:"maxtime,omitempty"`  // seconds (0 = 15 min default)
 	Deadline int    `json:"deadline,omitempty"` // seconds of caller context deadline (0 = none)
 	Create   []int  `json:"create,omitempty"`   // stores opened with NewBtree (others: OpenBtree)
@@ -636,59 +637,70 @@ func (e *Env) Observe(phase int, label string) Observation {
 			o.Stores[sp.Name] = d
 			continue
 		}
-		// each store in its own transaction: OpenBtree failure rolls the transaction back
-		t2, err := infs.NewTransaction(ctx, e.txOptions("r", 0))
-		if err == nil {
-			err = t2.Begin(ctx)
-		}
-		if err != nil {
-			d.Err = err.Error()
-			o.Stores[sp.Name] = d
-			continue
-		}
-		b, err := infs.OpenBtree[int, string](ctx, sp.Name, t2, nil)
-		if err != nil {
-			d.Err = "OpenBtree: " + err.Error()
-			o.Stores[sp.Name] = d
-			continue
-		}
-		d.Count = b.Count()
-		d.Info = b.GetStoreInfo()
-		ok, err := b.First(ctx)
-		for ok && err == nil {
-			var v string
-			k := b.GetCurrentKey().Key
-			v, err = b.GetCurrentValue(ctx)
-			if err != nil {
-				break
-			}
-			d.Items = append(d.Items, KV{k, unpad(v)})
-			ok, err = b.Next(ctx)
-		}
-		if err != nil {
-			d.ScanErr = err.Error()
-		}
-		ok, err = b.Last(ctx)
-		for ok && err == nil {
-			var v string
-			k := b.GetCurrentKey().Key
-			v, err = b.GetCurrentValue(ctx)
-			if err != nil {
-				break
-			}
-			d.Back = append(d.Back, KV{k, unpad(v)})
-			ok, err = b.Previous(ctx)
-		}
-		if err != nil && d.ScanErr == "" {
-			d.ScanErr = "backward: " + err.Error()
-		}
-		if err := t2.Commit(ctx); err != nil && d.ScanErr == "" {
-			d.ScanErr = "reader commit: " + err.Error()
-		}
+		func() {
+			defer func() {
+				if r := recover(); r != nil {
+					d.ScanErr = fmt.Sprintf("panic while reading: %v (%s)", r, panicClass(string(debug.Stack())))
+				}
+			}()
+			e.dumpStore(ctx, sp, &d)
+		}()
 		o.Stores[sp.Name] = d
 	}
 	trans.Commit(ctx)
 	return o
+}
+
+func (e *Env) dumpStore(ctx context.Context, sp StoreSpec, dp *Dump) {
+	d := *dp
+	defer func() { *dp = d }()
+	// each store in its own transaction: OpenBtree failure rolls the transaction back
+	t2, err := infs.NewTransaction(ctx, e.txOptions("r", 0))
+	if err == nil {
+		err = t2.Begin(ctx)
+	}
+	if err != nil {
+		d.Err = err.Error()
+		return
+	}
+	b, err := infs.OpenBtree[int, string](ctx, sp.Name, t2, nil)
+	if err != nil {
+		d.Err = "OpenBtree: " + err.Error()
+		return
+	}
+	d.Count = b.Count()
+	d.Info = b.GetStoreInfo()
+	ok, err := b.First(ctx)
+	for ok && err == nil {
+		var v string
+		k := b.GetCurrentKey().Key
+		v, err = b.GetCurrentValue(ctx)
+		if err != nil {
+			break
+		}
+		d.Items = append(d.Items, KV{k, unpad(v)})
+		ok, err = b.Next(ctx)
+	}
+	if err != nil {
+		d.ScanErr = err.Error()
+	}
+	ok, err = b.Last(ctx)
+	for ok && err == nil {
+		var v string
+		k := b.GetCurrentKey().Key
+		v, err = b.GetCurrentValue(ctx)
+		if err != nil {
+			break
+		}
+		d.Back = append(d.Back, KV{k, unpad(v)})
+		ok, err = b.Previous(ctx)
+	}
+	if err != nil && d.ScanErr == "" {
+		d.ScanErr = "backward: " + err.Error()
+	}
+	if err := t2.Commit(ctx); err != nil && d.ScanErr == "" {
+		d.ScanErr = "reader commit: " + err.Error()
+	}
 }
 
 // Execute runs a whole case and returns its recorded history.
